@@ -3,6 +3,8 @@ import PEval.Driver.C01
 import PEval.Driver.C04
 import PEval.Model.PassFail
 import PEval.Model.Pipeline
+import PEval.Model.CriticalFrame
+import PEval.Driver.C10
 /-! Driver handler for C03 (per-frame TP/FP/FN/TN accounting).
 
 Request  `{"op":"frame", "gts":[GT…], "results":[{"est":n,"ec":b,"gt":GT|null,"lab":b,"thr":q|null,"score":q|null}…]}`
@@ -21,7 +23,14 @@ values, `"pairs":[{"i":n,"j":n,"pf":q|null,"s":{"center":q|null,"plane":…,"iou
 `"pf_targets":[n…]`, `"pf_thrs":[q…]|null`, `"crit_targets":[n…]`, `"map_targets":[n…]`,
 `"maps":[{"mode":s,"thrs":[q…]}…]`.
 Response: `matched` (pairs by id), the four lists, filtered inputs, counters, `maps` (as the C04 driver
-prints a `Map`), `wf` / `gts_distinct` / `ids_distinct` / `coherent` flags; or `{"err":kind}`. -/
+prints a `Map`), `wf` / `gts_distinct` / `ids_distinct` / `coherent` flags; or `{"err":kind}`.
+
+Request `{"op":"critframe", …}`: one frame for `CritFrame.evaluateFrameWith` (the critical filter COMPUTED from
+positions, frame ids, transforms and `filtering_params`, both call sites of `evaluate_frame`):
+`"wiring":"code"|"f2"|"f2gt"`, `"transforms":null|[{"frame":s,"c":q,"s":q,"tx":q,"ty":q}…]`,
+`"crit":{…}` (as the C10 driver's `params`), `"objs":[{"id":n,"label":s,"name":s,"attrs":[s…],"score":q,"pc":n|null,
+"uuid":s|null,"frame":s,"pos":[q,q]|null,"key":n}…]`, `"gts":[id…]`, `"results":[{"est":id,"gt":id|null,"lab":b,
+"thr":q|null,"score":q|null}…]`.  Response: the four lists, the kept lists, the counters, `sites_agree`; or `{"err":kind}`. -/
 open Lean
 
 namespace PEval.Driver.C03
@@ -119,9 +128,73 @@ def decodeFrame (j : Json) : Except String PEval.Pipeline.Frame := do
 def jMatched (f : PEval.Pipeline.Frame) (r : PEval.Matching.Res) : Json :=
   Json.arr #[jNat (f.est r.1).id, jOptNat (r.2.map fun k => (f.gt k).id)]
 
+/-! ### the critical filter on objects with positions -/
+
+open PEval.CritFrame in
+def getCObj (j : Json) : Except String CObj := do
+  let pc ← match PEval.Driver.C10.optField j "pc" with
+    | none => pure none
+    | some v => do pure (some (← v.getInt?))
+  let uuid ← match PEval.Driver.C10.optField j "uuid" with
+    | none => pure none
+    | some v => do pure (some (← v.getStr?))
+  pure { id := ← getNat j "id", label := ← getStr j "label", name := ← getStr j "name",
+         attributes := ← getStrList j "attrs", score := ← getRat j "score", pcNum := pc, uuid := uuid,
+         is2d := false, frame := ← getStr j "frame", pos := ← PEval.Driver.C10.getPos j "pos",
+         eqKey := ← getNat j "key" }
+
+def getTransforms (j : Json) : Except String (Option PEval.CritFrame.Transforms) :=
+  match PEval.Driver.C10.optField j "transforms" with
+  | none => pure none
+  | some v => do
+    let a ← v.getArr?
+    let l ← a.toList.mapM fun t => do
+      pure ((← getStr t "frame"), (⟨← getRat t "c", ← getRat t "s", ← getRat t "tx", ← getRat t "ty"⟩ : PEval.Filter.Pose))
+    pure (some l)
+
+open PEval.CritFrame in
+def decodeCritFrame (j : Json) : Except String PEval.CritFrame.Frame := do
+  let objs ← (← getArr j "objs").toList.mapM getCObj
+  let find (i : Nat) : Except String CObj :=
+    match objs.find? (fun o => o.id == i) with
+    | some o => pure o
+    | none => throw s!"critframe: unknown object id {i}"
+  let gts ← (← getNatList j "gts").mapM find
+  let results ← (← getArr j "results").toList.mapM fun r => do
+    let g ← match PEval.Driver.C10.optField r "gt" with
+      | none => pure none
+      | some v => do pure (some (← find (← v.getNat?)))
+    pure ({ est := ← find (← getNat r "est"), gt := g, labelOk := ← getBool r "lab",
+            thr := ← getOptRat r "thr", score := ← getOptRat r "score" } : CRes)
+  pure { results := results, gts := gts, transforms := ← getTransforms j,
+         critical := ← PEval.Driver.C10.getParams (← j.getObjVal? "crit") }
+
 def handle : Json → Except String Json := fun j => do
   let op ← getStr j "op"
   match op with
+  | "critframe" =>
+    let f ← decodeCritFrame j
+    let w ← match (← getStr j "wiring") with
+      | "code" => pure PEval.CritFrame.wiring
+      | "f2" => pure PEval.CritFrame.wiringF2
+      | "f2gt" => pure PEval.CritFrame.wiringF2gt
+      | x => throw s!"unknown wiring {x}"
+    match PEval.CritFrame.evaluateFrameWith w f with
+    | .error e => pure (Json.mkObj [("err", Json.str e)])
+    | .ok o =>
+      let p := o.pf
+      let agree := f.results.all fun r =>
+        match r.gt with
+        | none => true
+        | some g => !PEval.CritFrame.estFlag (w.resSite f) r ||
+            (PEval.CritFrame.gtFlagRes (w.resSite f) g == PEval.CritFrame.gtFlagList (w.gtSite f) g)
+      pure (Json.mkObj [
+        ("tp", jList jPair p.tp), ("fp", jList jPair p.fp),
+        ("tn", jList (fun g : GT => jNat g.id) p.tn), ("fn", jList (fun g : GT => jNat g.id) p.fn),
+        ("results", jList jPair p.results), ("gts", jList (fun g : GT => jNat g.id) p.gts),
+        ("kept_results", jList (fun r : PEval.CritFrame.CRes => Json.arr #[jNat r.est.id, jOptNat (r.gt.map (·.id))]) o.keptResults),
+        ("kept_gts", jList (fun g : PEval.CritFrame.CObj => jNat g.id) o.keptGts),
+        ("ns", jNat (numSuccess p)), ("nf", jNat (numFail p)), ("sites_agree", agree)])
   | "pipeline" =>
     let f ← decodeFrame j
     let flags : List (String × Json) := [
